@@ -21,7 +21,7 @@ def plan(tier):
     if tier == "quick":
         return [("debug", 8, dict(n=40, maxlen=256 << 10, lsan=False)), ("asan", 4, dict(n=14, maxlen=128 << 10, lsan=True))]
     return [("debug", 16, dict(n=380, maxlen=1 << 20, lsan=False)), ("release", 8, dict(n=200, maxlen=1 << 20, lsan=False)),
-            ("asan", 8, dict(n=120, maxlen=512 << 10, lsan=True))]
+            ("asan", 8, dict(n=120, maxlen=512 << 10, lsan=True)), ("miri", 16, dict(n=2, maxlen=6000, lsan=False, far=0, small=True))]
 
 
 EDGES = [0, 1, 2, 127, 128, 129, 15999, 16000, 16001, 31999, 32000, 32001]
@@ -48,9 +48,9 @@ def content(rng, n):
 def pick_len(rng, maxlen):
     k = rng.random()
     if k < 0.25:
-        return rng.choice(EDGES)
+        return rng.choice([e for e in EDGES if e <= max(maxlen, 129)])
     if k < 0.6:
-        return rng.randint(0, 40000)
+        return rng.randint(0, min(40000, maxlen))
     return rng.randint(0, maxlen)
 
 
